@@ -17,6 +17,8 @@ PAYLOADS = [
     ("compat-names", {"properties": {"\ufb01le": {"type": "string"}, "\uff2b": {"type": "integer"}, "\u00b5": {"type": "null"}}, "required": ["\ufb01le"], "additionalProperties": False}),
     ("nested-property-keywords", {"dependencies": {"cc": {"properties": {"n": {"type": "integer"}}, "required": ["n"]}}, "additionalProperties": {"properties": {"z": {"type": "string"}}}, "patternProperties": {"^q": {"properties": {"w": {}}}}}),
     ("multi-key-literals", {"properties": {"o": {"default": {"b": 1, "a": 2, "c": {"z": 0, "y": 1}}}, "e": {"enum": [{"x": 1, "y": 2, "w": 3}, "s"]}, "c": {"const": {"k2": None, "k1": [1], "k0": True}}}, "default": {"o": {"q": 1, "p": 2}}}),
+    ("additionalItems-class", {"properties": {"t": {"type": "array", "items": {"type": "string"}, "additionalItems": {"type": "object", "title": "OnlyHere", "properties": {"n": {"type": "number"}}}}, "u": {"additionalItems": {"type": "array", "items": {"type": "object", "title": "AlsoOnlyHere"}}}}}),
+    ("required-with-default", {"properties": {"a": {"type": "integer", "default": 1}, "b": {"type": "string"}}, "required": ["a", "b"]}),
     ("bare-list", {"properties": {"l": {"type": "array"}, "m": {"type": "array", "items": [{"type": "integer"}, {"type": "string"}]}}}),
 ]
 DESCRIPTIONS = [None, "plain description", 'with "quotes" and \\ backslash', "two\nlines", "trailing newline\n", "  leading blanks", "first\n    indented continuation\n    lines\n", "tab\there ", " "]
